@@ -6,6 +6,7 @@ package main
 import (
 	"fmt"
 	"go/token"
+	"go/types"
 	"strings"
 
 	"golang.org/x/tools/go/ssa"
@@ -106,7 +107,18 @@ func checkC13(p *Prog, r *Report) {
 		return
 	}
 	client := resolveCell(req.Common().Args[0])
-	if _, ok := client.(*ssa.Alloc); !ok {
+	/* The client may be one of several allocated on different branches. */
+	clientLeaves := phiLeaves(client)
+	allFresh := 0 != len(clientLeaves)
+	clientAllocs := map[ssa.Value]bool{}
+	for _, l := range clientLeaves {
+		if al, ok := l.V.(*ssa.Alloc); ok && al.Parent() == goFn {
+			clientAllocs[al] = true
+		} else {
+			allFresh = false
+		}
+	}
+	if !allFresh {
 		rGlob.Bad(fnName(goFn)+":client-fresh", posOf(req), "the client sending the request is %s, not one allocated in this call", rootsString(valueRoots(client, nil)))
 	} else {
 		rGlob.OK(fnName(goFn)+":client-fresh", posOf(req), "the client is allocated in this call")
@@ -205,6 +217,7 @@ func checkC13(p *Prog, r *Report) {
 			default:
 				/* Installed in the request's client through a cloned transport. */
 				installed := false
+				why := ""
 				for _, ref := range *cfg.Referrers() {
 					s2, ok := ref.(*ssa.Store)
 					if !ok || s2.Val != ssa.Value(cfg) {
@@ -226,20 +239,41 @@ func checkC13(p *Prog, r *Report) {
 						rPin.Bad(c+":transport", posOf(s2), "the pinned tls.Config is installed in a transport which is not cloned/allocated in this call (%s)", rootsString(valueRoots(tbase, nil)))
 						continue
 					}
-					/* transport → client.Transport */
-					for _, r3 := range *tr.Referrers() {
-						mi, ok := r3.(*ssa.MakeInterface)
-						if !ok {
-							continue
+					/* transport → (interface, variables, joins) → client.Transport */
+					fpStart := Loc{fpIf.Block().Succs[setSucc], -1}
+					onFpBranch := func(b *ssa.BasicBlock) bool {
+						return b == fpStart.B || 0 != len(b.Instrs) && canReach(fpStart, b.Instrs[0])
+					}
+					forwardStores(tr, func(s3 *ssa.Store, via ssa.Value) {
+						f3, cb := fieldAddrOf(s3.Addr)
+						if nil == f3 || "Transport" != f3.Name() {
+							return
 						}
-						for _, r4 := range *mi.Referrers() {
-							if s3, ok := r4.(*ssa.Store); ok {
-								if f3, cb := fieldAddrOf(s3.Addr); nil != f3 && "Transport" == f3.Name() && resolveCell(cb) == client {
-									installed = true
-								}
+						cl := resolveCell(cb)
+						if !clientAllocs[cl] {
+							return
+						}
+						/* On the fingerprint branch nothing else may end
+						up as this client's transport, and no other client
+						may send the request. */
+						for _, l := range phiLeaves(s3.Val) {
+							if l.V != via && nil != l.From && onFpBranch(l.From) && !flowsFrom(l.V, tr) {
+								why = "with a fingerprint configured the client's transport can also be " + describeValue(l.V)
+								return
 							}
 						}
-					}
+						for _, l := range clientLeaves {
+							if l.V != cl && nil != l.From && onFpBranch(l.From) {
+								why = "with a fingerprint configured the request can also be sent by a client without the pinned transport"
+								return
+							}
+						}
+						installed = true
+					})
+				}
+				if "" != why {
+					rPin.Bad(c, posOf(st), "%s", why)
+					return
 				}
 				if installed {
 					rPin.OK(c, posOf(st), "fresh config with this call's verifier, installed through a cloned transport in the client that sends the request")
@@ -460,6 +494,21 @@ func checkC13Constructor(p *Prog, r *Report, rMal, rAcc *Rule, vf *ssa.Function)
 			pinWhole = true
 		} else if sl, ok := rv.(*ssa.Slice); ok && resolveCell(sl.X) == ssa.Value(want) {
 			pinWhole = false
+		} else if ok && nil == sl.Low && nil == sl.High {
+			/* A whole-array slice of a fixed-size copy of the pin:
+			[N]byte(pin)[:], with len(pin) == N established by
+			malformed-refused. */
+			if al, isAl := resolveFree(sl.X).(*ssa.Alloc); isAl {
+				if sts := storesTo(al); 1 == len(sts) {
+					if ld, isLd := sts[0].Val.(*ssa.UnOp); isLd && token.MUL == ld.Op {
+						if cv, isCv := ld.X.(*ssa.SliceToArrayPointer); isCv && resolveCell(cv.X) == ssa.Value(want) {
+							if at, isArr := al.Type().Underlying().(*types.Pointer).Elem().Underlying().(*types.Array); isArr && 32 == at.Len() {
+								pinWhole = true
+							}
+						}
+					}
+				}
+			}
 		}
 	}
 	switch {
@@ -536,4 +585,80 @@ func checkC13Constructor(p *Prog, r *Report, rMal, rAcc *Rule, vf *ssa.Function)
 	if 0 == nnil {
 		rAcc.Bad(cc+":accept-edge", closure.Pos(), "the verifier never accepts")
 	}
+}
+
+// phiLeaf is one possible value of a merged value, with the block it comes
+// from (nil when the value is not a phi).
+type phiLeaf struct {
+	V    ssa.Value
+	From *ssa.BasicBlock
+}
+
+// phiLeaves resolves v through phis (and single-store cells and interface
+// conversions) to the values it can be.
+func phiLeaves(v ssa.Value) []phiLeaf {
+	var out []phiLeaf
+	seen := map[ssa.Value]bool{}
+	var walk func(v ssa.Value, from *ssa.BasicBlock)
+	walk = func(v ssa.Value, from *ssa.BasicBlock) {
+		v = stripConv(resolveCell(v), false)
+		if ph, ok := v.(*ssa.Phi); ok {
+			if seen[ph] {
+				return
+			}
+			seen[ph] = true
+			for k, e := range ph.Edges {
+				walk(e, ph.Block().Preds[k])
+			}
+			return
+		}
+		out = append(out, phiLeaf{v, from})
+	}
+	walk(v, nil)
+	return out
+}
+
+// forwardStores follows v forwards through interface conversions, phis and
+// local variables and reports every store of (a value carrying) it.
+func forwardStores(v ssa.Value, f func(st *ssa.Store, via ssa.Value)) {
+	seen := map[ssa.Value]bool{}
+	var walk func(x ssa.Value)
+	walk = func(x ssa.Value) {
+		if seen[x] || nil == x.Referrers() {
+			return
+		}
+		seen[x] = true
+		for _, ref := range *x.Referrers() {
+			switch r := ref.(type) {
+			case *ssa.MakeInterface, *ssa.ChangeInterface, *ssa.ChangeType, *ssa.Phi:
+				walk(r.(ssa.Value))
+			case *ssa.Store:
+				if r.Val != x {
+					continue
+				}
+				f(r, x)
+				if al, ok := resolveFree(r.Addr).(*ssa.Alloc); ok {
+					/* A local variable: its loads carry the value on. */
+					for _, fn := range withAnons(al.Parent()) {
+						eachInstr(fn, func(i ssa.Instruction) {
+							if u, ok := i.(*ssa.UnOp); ok && token.MUL == u.Op && resolveFree(u.X) == ssa.Value(al) {
+								walk(u)
+							}
+						})
+					}
+				}
+			}
+		}
+	}
+	walk(v)
+}
+
+// flowsFrom: v is (a conversion of) src.
+func flowsFrom(v, src ssa.Value) bool {
+	for _, l := range phiLeaves(v) {
+		if l.V != src {
+			return false
+		}
+	}
+	return true
 }
